@@ -14,7 +14,8 @@ def same_class(findings: List[dict], target: List[str]) -> Optional[dict]:
         if f["sig"] == target:
             return f
     for f in findings:
-        if f["clause"] == target[0]:
+        # same clause and at least the tags of the original (tags are computed from the violation event itself)
+        if f["clause"] == target[0] and set(target[1:]) <= set(f["sig"][1:]):
             return f
     return None
 
